@@ -3,6 +3,7 @@
 # usage: tools/mutant_eval.sh <patch.diff> <prop> [<prop>...]      (VERIF_SEED honoured)
 # The repository is $REPO (default /repo); with REPO pointing at a scratch copy and this script run from a snapshot of
 # /verif (vp run --with-repo) several evaluations can run side by side without touching /repo or /verif.
+# MUTANT_EVAL_NO_REBUILD=1 skips the rebuild after the revert (regression loops: the next evaluation rebuilds anyway).
 # prints one line per check: <prop> exit=<code> violations=<n> first-oracle=<...>
 ROOT="$(cd "$(dirname "$0")/.." && pwd)"; cd "$ROOT"
 export REPO=${REPO:-/repo}
@@ -13,7 +14,7 @@ mkdir -p build/tmp
 rm -rf build/tmp/evidence.bak; cp -r evidence build/tmp/evidence.bak
 stamp=build/tmp/.mutant_eval_stamp; touch $stamp
 # on exit: revert the repository, restore the evidence, drop the traces of this evaluation and REBUILD (otherwise build/*/vsim stays the mutated binary)
-trap 'git -C $REPO checkout -- . ; rm -rf "$ROOT/evidence"; cp -r "$ROOT/build/tmp/evidence.bak" "$ROOT/evidence"; find "$ROOT/replays" -name "*.trace" -newer "$ROOT/$stamp" -delete 2>/dev/null; make -C "$ROOT" -j16 FLAVOR=plain >/dev/null 2>&1; make -C "$ROOT" -j16 FLAVOR=san >/dev/null 2>&1; make -C "$ROOT" -j16 FLAVOR=dbg >/dev/null 2>&1' EXIT
+trap 'git -C $REPO checkout -- . ; rm -rf "$ROOT/evidence"; cp -r "$ROOT/build/tmp/evidence.bak" "$ROOT/evidence"; find "$ROOT/replays" -name "*.trace" -newer "$ROOT/$stamp" -delete 2>/dev/null; [ -n "$MUTANT_EVAL_NO_REBUILD" ] || { make -C "$ROOT" -j16 FLAVOR=plain >/dev/null 2>&1; make -C "$ROOT" -j16 FLAVOR=san >/dev/null 2>&1; make -C "$ROOT" -j16 FLAVOR=dbg >/dev/null 2>&1; }' EXIT
 for p in "$@"; do
   ./check $p > build/tmp/mut-$p.log 2>&1; rc=$?
   n=$(grep -c "^VIOLATION" build/tmp/mut-$p.log)
